@@ -79,3 +79,64 @@ PROPS = {
                        "termination/no-panic of each call for graphs whose edges end on existing nodes.",
     },
 }
+
+SM = "string and matrix domains"
+AUT_RULE = ("random pattern sets of 0-8 patterns (duplicates, empty patterns, shared prefixes, 1-4 literals incl. a non-ASCII one, 0-3 variables, "
+            "lengths 0-7; matrices up to 3 rows x 3 columns with holes and ragged rows), 2-6 hosts per set (planted: instantiated patterns glued "
+            "with noise, near misses; random; degenerate: empty, ragged, non-ASCII), heuristics Never / Default / Custom answer sequences; "
+            "non-trivial = some automaton of the case has >= 3 states and some host contains an occurrence; distinct by hash of the model input")
+AUT_TB = [KERNEL, EXTRACT, HARNESS,
+          MODELLED + " (Model/Traversal.v <-> automaton/traversal.rs; Model/Automaton.v <-> the `verif` dump of the real automaton; "
+          "Model/DomString.v, DomMatrix.v <-> string.rs, matrix.rs and their pattern -> constraint conversion)",
+          "the certificates are evaluated by the extracted checkers on the dump of the automaton the Rust builder really built; the labelling / rank "
+          "fed to the checkers is computed by unverified code and only checked"]
+AUT_ASSUME = COMMON_ASSUMPTIONS + [
+    "the 64-bit FxHash used by AutomatonTraverser::visit is modelled by the restricted binding itself (hash collisions are not exhibited)",
+    "port graphs are not covered by this check yet (see not_applicable notes in DESIGN.md)"]
+
+def aut_prop(level, explanation, technique, subs):
+    return {"subs": subs, "level": level, "rule": AUT_RULE, "trusted_base": AUT_TB, "assumptions": AUT_ASSUME,
+            "explanation": explanation, "technique": technique, "timeout": 3000}
+
+PROPS.update({
+    "C01": aut_prop("proof",
+        "Theorem c01_run_sound (all domains with lawful binding maps, all hosts, all executions of the modelled traversal): every match emitted on an "
+        "automaton that passes lab_ok satisfies every constraint of its pattern under the returned bindings, which bind all their keys. lab_ok is "
+        "evaluated on every automaton the real builder produces for the generated pattern sets; the modelled traversal is compared with "
+        "ManyMatcher::find_matches as exact match sequences on those automata; every reported match is also judged by an independent occurrence oracle.",
+        "Coq proof (invariant of the FIFO traversal w.r.t. an inductive labelling) + verified certificate checker on the real automaton + differential correspondence + occurrence oracle",
+        ["c01"]),
+    "C02": aut_prop("translation_validation",
+        "cert_complete (proved sound w.r.t. the abstract semantics of the automaton, for all valuations, hence all hosts and anchors) is evaluated on "
+        "every real automaton; the step from abstract acceptance to the concrete traversal is decided by correspondence (model traversal = real "
+        "traversal, exact sequences) and by the oracle (every occurrence found by an independent scan must be reported).",
+        "verified completeness certificate (AND-OR search, Coq soundness proof) on the real automaton + differential correspondence + occurrence oracle",
+        ["c02"]),
+    "C03": aut_prop("translation_validation",
+        "Theorem c03_accepts_iff_constraints: on an automaton passing both certificates, pattern i is accepted under a valuation iff all constraints "
+        "of pattern i are true - i.e. exactly when the one-pattern matcher's constraints hold; evaluated per real automaton; ManyMatcher and "
+        "NaiveManyMatcher are compared as sets of (pattern, bindings) incl. the match data on every generated host.",
+        "verified certificates (sound + complete) on the real automaton + ManyMatcher vs NaiveManyMatcher differential", ["c03"]),
+    "C04": aut_prop("translation_validation",
+        "Theorem c04_heuristic_independent_acceptance: two certified automata for the same constraint lists accept the same patterns under the same "
+        "valuations; every heuristic answer sequence is enumerated while the number of builds stays <= 24 (quick) / 256 (thorough), random beyond; "
+        "each automaton is certified and all match multisets are compared pairwise.",
+        "verified certificates on every automaton of every enumerated heuristic answer sequence + pairwise multiset comparison", ["c04"]),
+    "C06": aut_prop("translation_validation",
+        "Theorem c06_pattern_independent_acceptance (certified automata for pattern lists sharing a constraint list accept it identically); each "
+        "pattern compiled alone vs inside the set, a rotated set with renumbering, duplicates, n_patterns/get_pattern.",
+        "verified certificates + alone-vs-together / permutation differential", ["c06"]),
+    "C07": aut_prop("exploration",
+        "each (pattern, anchor) occurrence found by the independent scan must be reported exactly once under every heuristic (multiset equality); "
+        "the model traversal is compared as exact sequences. No unambiguity theorem yet (cert_unamb of DESIGN.md is not built).",
+        "multiset comparison with an independent occurrence oracle + differential correspondence of the traversal", ["c07"]),
+    "C09": aut_prop("translation_validation",
+        "wf_check (proved to establish every clause of the property, Theorem c09_wf_check_sound / c09_clauses) is evaluated on the dump of every "
+        "automaton built, for all enumerated heuristic answer sequences - all states, not only those a host visits.",
+        "verified structural checker (Coq soundness proof) run on the dump of every real automaton", ["c09"]),
+    "C05": {"subs": ["c05"], "level": "exploration", "rule": AUT_RULE + "; for C05 each (pattern, host) pair is one case",
+        "trusted_base": AUT_TB, "assumptions": AUT_ASSUME, "timeout": 3000,
+        "explanation": "SinglePatternMatcher::find_matches / match_exists and NaiveManyMatcher are compared with the extracted model (exact sequences) "
+                       "and with an independent occurrence scan (exact anchor lists, order included); pattern -> constraint vectors are compared exactly.",
+        "technique": "differential correspondence with the Gallina model of the single-pattern matcher + occurrence oracle"},
+})
